@@ -101,11 +101,12 @@ def zero_density_check(sweep):
     """support search for the partial clause: along rho/rho_max = 1e-2 ... 1e-12 every residual quantity X (made dimensionless
     with its ideal-gas scale) vanishes like B rho:
       finite      X is finite at every density (when it is at the reference densities: otherwise the model is undefined at this T)
-      vanishes    |X(1e-12)| <= 1e-6 |X(1e-4)|                       (a linear law gives 1e-8; a sqrt law or a constant fails)
+      vanishes    local exponent log10|X(1e-11)/X(1e-12)| >= 0.8      (linear law: 1; sqrt law: 0.5; constant: 0; strongly associating
+                  fluids reach the linear regime only below ~1e-9 rho_max, the unchanged tree gives >= 0.97 everywhere)
       converges   the slopes s_k = X/rho at rho <= 1e-8 rho_max form a Cauchy sequence: |s_k - s_(k-1)| <= 2 |s_(k-1) - s_(k-2)| + floor,
                   floor = 100 eps / (rho_k/rho_max) * max(1, |s(1e-7)|)   (round-off of X of 100 ulp of its natural scale; the
                   unchanged tree stays below ~15 ulp) - catches cancellation noise, which grows like 1/rho^2
-      total-ideal (p_total - p_ideal)/p_ideal = Z_res to 1e-15
+      total-ideal (p_total - p_ideal)/p_ideal = Z_res to 1e-13 (observed up to 2e-15: SI <-> reduced conversions)
     returns (failures, number of tests, skipped)"""
     bad = []
     if sweep.get("panic"):
@@ -125,8 +126,9 @@ def zero_density_check(sweep):
             bad.append({"quantity": q, "what": "not finite", "at_fraction_of_rho_max": [f for f, v in vals if v is None][:4]})
             continue
         d = dict(vals)
-        if not abs(d[1e-12]) <= 1e-6 * abs(d[1e-4]) + 1e-300:
-            bad.append({"quantity": q, "what": "does not vanish like rho", "X(1e-4)": d[1e-4], "X(1e-12)": d[1e-12]})
+        if d[1e-12] != 0.0 and not abs(d[1e-12]) <= 10.0 ** (-0.8) * abs(d[1e-11]):
+            bad.append({"quantity": q, "what": "does not vanish like rho", "X(1e-11)": d[1e-11], "X(1e-12)": d[1e-12],
+                        "local_exponent": (math.log10(abs(d[1e-11]) / abs(d[1e-12])) if d[1e-11] != 0.0 else None)})
         sl = [(f, v / f) for f, v in vals]
         s7 = abs(dict(sl)[1e-7])
         for k in range(2, len(sl)):
@@ -142,7 +144,7 @@ def zero_density_check(sweep):
                 break
     for r in rows:
         n += 1
-        if r["p_tot_minus_ig_rel"] is None or r["z_res"] is None or not abs(r["p_tot_minus_ig_rel"] - r["z_res"]) <= 1e-15 * (1.0 + abs(r["z_res"])):
+        if r["p_tot_minus_ig_rel"] is None or r["z_res"] is None or not abs(r["p_tot_minus_ig_rel"] - r["z_res"]) <= 1e-13 * (1.0 + abs(r["z_res"])):
             bad.append({"quantity": "p_total - p_ideal", "what": "differs from p_residual", "fraction_of_rho_max": r["frac"],
                         "values": [r["p_tot_minus_ig_rel"], r["z_res"]]})
             break
@@ -391,7 +393,7 @@ def run(ctx):
         "total_is_sum_worst_relative_residual": worst_sum,
         "cp_state_vs_direct_worst_relative": worst_cp,
         "ideal_mixing_evaluations": n_mix,
-        "support_search": {"level": "exploration", "what": "zero-density sweep on every residual configuration, rho/rho_max = 1e-2..1e-12: finite; |X(1e-12)| <= 1e-6 |X(1e-4)|; "
+        "support_search": {"level": "exploration", "what": "zero-density sweep on every residual configuration, rho/rho_max = 1e-2..1e-12: finite; local exponent log10|X(1e-11)/X(1e-12)| >= 0.8; "
                                    "slopes X/rho Cauchy below 1e-8 rho_max (step <= 2 previous step + 100 ulp/rho); (p_tot - p_ig)/p_ig = Z_res",
                            "skipped_model_undefined_at_T": zero_skipped,
                            "sweeps": len(impl["zero_density"]), "states": zero_rows, "bound_checks": n_zero},
